@@ -641,6 +641,9 @@ def run(ctx):
     c10_tables.run(ctx)
     # array-valued sensors: values that are not just ids (equality by shape and elements)
     c10_values.run(ctx)
+    # quarter placements in the first / last dump (cache, data sets) and histories of conversions over one getter
+    from props import c10_hist
+    c10_hist.run(ctx)
     if ctx.tier == 'thorough' and not ctx.searching:
         buf, tot = [], 0
         for c in exhaustive_cases():
@@ -672,6 +675,9 @@ def run(ctx):
 def replay(ctx, doc):
     _quiet()
     case = doc.get('case', {})
+    if 'hist' in case:
+        from props import c10_hist
+        return c10_hist.replay(ctx, case)
     if case.get('path') == 'generator':
         run_generator(ctx, [(case['events'], case['vals'], case['greedy'])])
         return
